@@ -231,14 +231,50 @@ def main():
                 # up-cast back is the recorded cast-cancellation defect (listData(unListData d) -> d)
                 import re as _re
 
-                aliases = dict(_re.findall(r"(?m)^(?:pub )?type (\w+) =\s*(.+)$", src))
-                flat = tstr.replace(" ", "")
-                for _ in range(8):  # expand aliases (`type T3 = List<Data>`)
-                    nxt = _re.sub(r"\b(\w+)\b", lambda m: aliases.get(m.group(1), m.group(1)).replace(" ", ""), flat)
-                    if nxt == flat:
-                        break
-                    flat = nxt
-                bare = flat in ("List<Data>", "Pairs<Data,Data>", "List<Pair<Data,Data>>")
+                aliases = {n: ([p.strip() for p in ps.split(",")] if ps else [], body) for n, ps, body in _re.findall(r"(?m)^(?:pub )?type (\w+)(?:<([^>]*)>)? =\s*(.+)$", src)}
+
+                def parse_t(s, i=0):
+                    """type expression -> (tree, next index); tree = (head, [args]) or ("(", [items])"""
+                    s = s.replace(" ", "") if i == 0 else s
+                    if s[i] == "(":
+                        items, i = [], i + 1
+                        while s[i] != ")":
+                            t_, i = parse_t(s, i)
+                            items.append(t_)
+                            if s[i] == ",":
+                                i += 1
+                        return ("(", items), i + 1
+                    j = i
+                    while j < len(s) and (s[j].isalnum() or s[j] in "_."):
+                        j += 1
+                    head, args = s[i:j], []
+                    if j < len(s) and s[j] == "<":
+                        j += 1
+                        while s[j] != ">":
+                            t_, j = parse_t(s, j)
+                            args.append(t_)
+                            if s[j] == ",":
+                                j += 1
+                        j += 1
+                    return (head, args), j
+
+                def expand(t_, env=None, depth=0):
+                    head, args = t_
+                    if env and head in env and not args:
+                        return env[head]
+                    args = [expand(a, env, depth + 1) for a in args]
+                    if head in aliases and depth < 12:
+                        ps, body = aliases[head]
+                        if len(ps) == len(args):
+                            return expand(parse_t(body)[0], dict(zip(ps, args)), depth + 1)
+                    return (head, args)
+
+                try:
+                    flat = expand(parse_t(tstr)[0])
+                except (IndexError, RecursionError):
+                    flat = None
+                DATA = ("Data", [])
+                bare = flat in (("List", [DATA]), ("Pairs", [DATA, DATA]), ("List", [("Pair", [DATA, DATA])]))
                 label = "F3_cast_cancel_expect" if bare else "cast-to-non-primitive-type"
                 chk.violation(f"C14|outcome-depends-on-tracing|{classify_split(by_t)}|{label}", {"source": src, "type": tstr, "value": v, "value_conforms": pos < nconf, "outcomes": by_t})
     # harvested unit tests: pass/fail verdict under the nine settings
